@@ -234,3 +234,25 @@ func drain(rd io.Reader, err error) (string, bool, error, *Panic) {
 	}
 	return string(b), false, err, nil
 }
+
+// ChainedReport returns a base report assembled by the client whose text fields hold templates that export the
+// same report again with the next field as the template (depth levels; the last field is plain text), and the
+// template that starts the chain.  Exporting it is a read-only operation on the report.
+func ChainedReport(depth int) (rep Report, tmpl string) {
+	br := &report.BaseReport{}
+	v := reflect.ValueOf(br).Elem()
+	var names []string
+	for i := 0; i < v.NumField(); i++ {
+		if f := v.Type().Field(i); f.IsExported() && v.Field(i).Kind() == reflect.String {
+			names = append(names, f.Name)
+		}
+	}
+	if depth > len(names)-1 {
+		depth = len(names) - 1
+	}
+	for i := 0; i < depth; i++ {
+		v.FieldByName(names[i]).SetString("<" + names[i] + " {{.ExportWithString ." + names[i+1] + "}}>")
+	}
+	v.FieldByName(names[depth]).SetString("leaf")
+	return Report{Level: 0, B: br}, "{{.ExportWithString ." + names[0] + "}}"
+}
